@@ -163,9 +163,23 @@ impl TryFrom<&Value> for f64 {
                 Ok(f64::try_from(&Value::Text(s))?)
             }
             Value::Number(v) => Ok(*v),
-            Value::Text(v) => Ok(v.parse::<f64>().unwrap_or(f64::NAN)),
+            Value::Text(v) => Ok(number_from_str(v)),
         }
     }
+}
+
+/// Optional white space, an optional minus sign, a Number (`Digits ('.' Digits?)? | '.' Digits`)
+/// and optional white space; anything else is NaN.
+fn number_from_str(value: &str) -> f64 {
+    let v = value.trim_matches([' ', '\t', '\r', '\n']);
+    let unsigned = v.strip_prefix('-').unwrap_or(v);
+    let digits = unsigned.chars().filter(|c| c.is_ascii_digit()).count();
+    let points = unsigned.chars().filter(|c| *c == '.').count();
+    if digits == 0 || points > 1 || digits + points != unsigned.chars().count() {
+        return f64::NAN;
+    }
+
+    v.parse::<f64>().unwrap_or(f64::NAN)
 }
 
 impl cmp::PartialEq<bool> for Value {
